@@ -62,4 +62,209 @@ theorem crcOf_eq_iso (init : BitVec 16) (d : List (BitVec 8)) : crcOf init d = i
   | nil => rfl
   | cons a t ih => simp only [List.foldl_cons, byteStep_eq_iso, ih]
 
+theorem bitStep_zero_inj (r : BitVec 16) (h : bitStep r false = 0#16) : r = 0#16 := by
+  unfold bitStep at h
+  have e0 : r.getLsbD 0 = r[0] := BitVec.getLsbD_eq_getElem (by omega)
+  cases h0 : r[0]
+  · simp [e0, h0] at h
+    apply BitVec.eq_of_getLsbD_eq
+    intro i hi
+    cases i with
+    | zero => rw [e0, h0]; simp
+    | succ j =>
+      have := congrArg (fun x => x.getLsbD j) h
+      simp only [BitVec.getLsbD_ushiftRight, BitVec.getLsbD_zero] at this
+      rw [Nat.add_comm] at this
+      simpa using this
+  · simp [e0, h0] at h
+    have := congrArg (fun x => x.getLsbD 15) h
+    simp [BitVec.getLsbD_xor, BitVec.getLsbD_ushiftRight] at this
+
+theorem byteStep_zero_inj (r : BitVec 16) (h : byteStep r 0#8 = 0#16) : r = 0#16 := by
+  unfold byteStep at h
+  simp only [BitVec.getLsbD_zero] at h
+  exact bitStep_zero_inj _ (bitStep_zero_inj _ (bitStep_zero_inj _ (bitStep_zero_inj _
+    (bitStep_zero_inj _ (bitStep_zero_inj _ (bitStep_zero_inj _ (bitStep_zero_inj _ h)))))))
+
+theorem crcOf_xor (d e : List (BitVec 8)) : ∀ (r s : BitVec 16), d.length = e.length →
+    crcOf (r ^^^ s) (List.zipWith (· ^^^ ·) d e) = crcOf r d ^^^ crcOf s e := by
+  induction d generalizing e with
+  | nil => intro r s h; cases e with
+    | nil => simp [crcOf]
+    | cons _ _ => simp at h
+  | cons a t ih =>
+    intro r s h
+    cases e with
+    | nil => simp at h
+    | cons b u =>
+      simp only [List.zipWith_cons_cons, crcOf, List.foldl_cons]
+      rw [byteStep_xor]
+      have := ih u (byteStep r a) (byteStep s b) (by simpa using h)
+      simpa [crcOf] using this
+
+theorem crcOf_append (r : BitVec 16) (a b : List (BitVec 8)) : crcOf r (a ++ b) = crcOf (crcOf r a) b := by
+  simp [crcOf, List.foldl_append]
+
+theorem byteStep_zero_zero : byteStep 0#16 0#8 = 0#16 := by decide +kernel
+
+theorem crcOf_zeros_zero (n : Nat) : crcOf 0#16 (List.replicate n 0#8) = 0#16 := by
+  induction n with
+  | zero => rfl
+  | succ n ih => simp only [List.replicate_succ, crcOf, List.foldl_cons, byteStep_zero_zero]; exact ih
+
+theorem crcOf_zeros_ne (n : Nat) (x : BitVec 16) (hx : x ≠ 0#16) : crcOf x (List.replicate n 0#8) ≠ 0#16 := by
+  induction n generalizing x with
+  | zero => simpa [crcOf] using hx
+  | succ n ih =>
+    simp only [List.replicate_succ, crcOf, List.foldl_cons]
+    exact ih _ (fun h => hx (byteStep_zero_inj x h))
+
+/-- the all-zero message of length `n` with octet `e` at position `i` -/
+def unit (n i : Nat) (e : BitVec 8) : List (BitVec 8) := (List.replicate n 0#8).set i e
+
+theorem unit_split (n i : Nat) (e : BitVec 8) (hi : i < n) :
+    unit n i e = List.replicate i 0#8 ++ e :: List.replicate (n - i - 1) 0#8 := by
+  unfold unit
+  apply List.ext_getElem
+  · simp; omega
+  · intro k h1 h2
+    simp only [List.getElem_set, List.getElem_replicate, List.getElem_append, List.length_replicate]
+    by_cases hk : i = k
+    · subst hk; simp
+    · simp only [hk, if_false]
+      by_cases hlt : k < i
+      · simp [hlt]
+      · simp only [hlt, dite_false]
+        have : k - i = (k - i - 1) + 1 := by omega
+        rw [List.getElem_cons]
+        simp [show ¬ (k - i = 0) by omega]
+
+theorem crcOf_unit_ne (n i : Nat) (e : BitVec 8) (hi : i < n) (he : byteStep 0#16 e ≠ 0#16) :
+    crcOf 0#16 (unit n i e) ≠ 0#16 := by
+  rw [unit_split n i e hi, crcOf_append, crcOf_zeros_zero]
+  simp only [crcOf, List.foldl_cons]
+  exact crcOf_zeros_ne _ _ he
+
+theorem set_eq_xor_unit (d : List (BitVec 8)) (i : Nat) (e : BitVec 8) (hi : i < d.length) :
+    d.set i (d[i] ^^^ e) = List.zipWith (· ^^^ ·) d (unit d.length i e) := by
+  apply List.ext_getElem
+  · simp [unit]
+  · intro k h1 h2
+    simp only [List.getElem_set, List.getElem_zipWith, unit, List.getElem_replicate]
+    by_cases hk : i = k
+    · subst hk; simp
+    · simp [hk]
+
+theorem bit_ne (b : Fin 8) : byteStep 0#16 (1#8 <<< b.val) ≠ 0#16 := by
+  revert b; decide +kernel
+
+/-- changing exactly one bit of the message changes the CRC register, for every initial value -/
+theorem crcOf_flip_ne (init : BitVec 16) (d : List (BitVec 8)) (i : Nat) (b : Fin 8) (hi : i < d.length) :
+    crcOf init (d.set i (d[i] ^^^ (1#8 <<< b.val))) ≠ crcOf init d := by
+  rw [set_eq_xor_unit d i _ hi]
+  have h := crcOf_xor d (unit d.length i (1#8 <<< b.val)) init 0#16 (by simp [unit])
+  rw [BitVec.xor_zero] at h
+  rw [h]
+  intro hc
+  have hne := crcOf_unit_ne d.length i (1#8 <<< b.val) hi (bit_ne b)
+  apply hne
+  have : crcOf init d ^^^ crcOf 0#16 (unit d.length i (1#8 <<< b.val)) ^^^ crcOf init d = crcOf init d ^^^ crcOf init d := by
+    rw [hc]
+  rw [BitVec.xor_self] at this
+  rw [BitVec.xor_comm (crcOf init d), BitVec.xor_assoc, BitVec.xor_self, BitVec.xor_zero] at this
+  exact this
+
+def flipBit (l : List (BitVec 8)) (i : Nat) (b : Fin 8) : List (BitVec 8) :=
+  match l[i]? with
+  | some x => l.set i (x ^^^ (1#8 <<< b.val))
+  | none => l
+
+theorem lo_hi_inj (a b : BitVec 16) (h1 : lo a = lo b) (h2 : hi a = hi b) : a = b := by
+  rw [split16 a, split16 b]
+  unfold lo at h1; unfold hi at h2
+  rw [h1, h2]
+
+theorem one_shift_ne_zero (b : Fin 8) : (1#8 <<< b.val) ≠ 0#8 := by revert b; decide
+
+theorem xor_ne_self (x e : BitVec 8) (he : e ≠ 0#8) : x ^^^ e ≠ x := by
+  intro h
+  apply he
+  have : x ^^^ (x ^^^ e) = x ^^^ x := by rw [h]
+  rw [← BitVec.xor_assoc, BitVec.xor_self, BitVec.zero_xor] at this
+  exact this
+
+/-- generic form: `c` is any function of the CRC register that is injective (identity for CRC_A,
+complement for CRC_B) -/
+theorem check_flip_false (init : BitVec 16) (g : BitVec 16 → BitVec 16) (hg : ∀ a b, g a = g b → a = b)
+    (d : List (BitVec 8)) (i : Nat) (b : Fin 8) (hlt : i < d.length + 2) :
+    let f := flipBit (d ++ [lo (g (crcOf init d)), hi (g (crcOf init d))]) i b
+    (f.drop (f.length - 2) == [lo (g (crcOf init (f.take (f.length - 2)))), hi (g (crcOf init (f.take (f.length - 2))))]) = false := by
+  intro f
+  have hlen : f.length = d.length + 2 := by
+    simp only [f, flipBit]; split <;> simp
+  by_cases hd : i < d.length
+  · -- the flipped bit is in the message
+    have hf : f = d.set i (d[i] ^^^ (1#8 <<< b.val)) ++ [lo (g (crcOf init d)), hi (g (crcOf init d))] := by
+      simp only [f, flipBit]
+      rw [List.getElem?_append_left hd, List.getElem?_eq_getElem hd]
+      simp only
+      rw [List.set_append_left _ _ hd]
+    have htake : f.take (f.length - 2) = d.set i (d[i] ^^^ (1#8 <<< b.val)) := by
+      rw [hlen, hf]; simp
+    have hdrop : f.drop (f.length - 2) = [lo (g (crcOf init d)), hi (g (crcOf init d))] := by
+      rw [hlen, hf]; simp
+    rw [htake, hdrop]
+    have hne := crcOf_flip_ne init d i b hd
+    simp only [beq_eq_false_iff_ne, ne_eq, List.cons.injEq, and_true, not_and]
+    intro h1 h2
+    exact hne (hg _ _ (lo_hi_inj _ _ h1 h2)).symm
+  · -- the flipped bit is in one of the two CRC octets
+    have hcase : i = d.length ∨ i = d.length + 1 := by omega
+    have he := one_shift_ne_zero b
+    rcases hcase with rfl | rfl
+    · have hf : f = d ++ [lo (g (crcOf init d)) ^^^ (1#8 <<< b.val), hi (g (crcOf init d))] := by
+        simp [f, flipBit]
+      have htake : f.take (f.length - 2) = d := by rw [hlen, hf]; simp
+      have hdrop : f.drop (f.length - 2) = [lo (g (crcOf init d)) ^^^ (1#8 <<< b.val), hi (g (crcOf init d))] := by
+        rw [hlen, hf]; simp
+      rw [htake, hdrop]
+      simp only [beq_eq_false_iff_ne, ne_eq, List.cons.injEq, and_true, not_and]
+      intro h1
+      exact absurd h1 (xor_ne_self _ _ he)
+    · have hf : f = d ++ [lo (g (crcOf init d)), hi (g (crcOf init d)) ^^^ (1#8 <<< b.val)] := by
+        simp [f, flipBit]
+      have htake : f.take (f.length - 2) = d := by rw [hlen, hf]; simp
+      have hdrop : f.drop (f.length - 2) = [lo (g (crcOf init d)), hi (g (crcOf init d)) ^^^ (1#8 <<< b.val)] := by
+        rw [hlen, hf]; simp
+      rw [htake, hdrop]
+      simp only [beq_eq_false_iff_ne, ne_eq, List.cons.injEq, and_true, not_and]
+      intro _ h2
+      exact absurd h2 (xor_ne_self _ _ he)
+
+theorem flipBit_length (l : List (BitVec 8)) (i : Nat) (b : Fin 8) : (flipBit l i b).length = l.length := by
+  unfold flipBit; split <;> simp
+
+theorem checkA_flip (d : List (BitVec 8)) (i : Nat) (b : Fin 8) (h : i < d.length + 2) :
+    checkCrcA (flipBit (addCrcA d) i b) = .ok false := by
+  have hl : (flipBit (addCrcA d) i b).length = d.length + 2 := by rw [flipBit_length]; simp [addCrcA]
+  have := check_flip_false (0x6363#16) id (fun a b h => h) d i b h
+  simp only [id] at this
+  unfold checkCrcA
+  rw [if_neg (by omega)]
+  simp only [addCrcA] at this ⊢
+  rw [this]; rfl
+
+theorem checkB_flip (d : List (BitVec 8)) (i : Nat) (b : Fin 8) (h : i < d.length + 2) :
+    checkCrcB (flipBit (addCrcB d) i b) = .ok false := by
+  have hl : (flipBit (addCrcB d) i b).length = d.length + 2 := by rw [flipBit_length]; simp [addCrcB]
+  have hinj : ∀ a b : BitVec 16, ~~~a = ~~~b → a = b := by
+    intro a b h
+    have := congrArg (fun x => ~~~x) h
+    simpa using this
+  have := check_flip_false (0xFFFF#16) (fun x => ~~~x) hinj d i b h
+  unfold checkCrcB
+  rw [if_neg (by omega)]
+  simp only [addCrcB] at this ⊢
+  rw [this]; rfl
+
 end NfcVerif.Crc
